@@ -80,6 +80,14 @@ func NewGen(w *World, seed uint64, profile string) *Gen {
 	for _, o := range g.Owners {
 		g.setup = append(g.setup, Op{K: "payaddr", Creator: o, Did: o + 1})
 	}
+	if profile == "genesis" {
+		for k, i := range g.Nodes {
+			if k < 2 {
+				g.setup = append(g.setup, Op{K: "delegate", Creator: i, Val: 1 + k%2, Amount: int64(150000 + g.R.Intn(400000))})
+				g.setup = append(g.setup, Op{K: "reset", Creator: i, Status: 15, PeerOk: &t, Val: 1 + k%2})
+			}
+		}
+	}
 	if profile == "faults" {
 		// few providers, so that each holds shards of several orders
 		g.Nodes = []int{1, 2, 3}
@@ -239,6 +247,10 @@ func (g *Gen) Next() Op {
 	if g.phase >= 1+g.R.Intn(4) || g.phase > 4 {
 		g.inBlock = false
 		return Op{K: "end"}
+	}
+	if g.Profile == "genesis" && g.R.Chance(8) {
+		g.phase++
+		return Op{K: "genesis"}
 	}
 	g.phase++
 	return g.tx()
@@ -457,6 +469,23 @@ func (g *Gen) tx() Op {
 	}
 	if g.Profile == "lifecycle" {
 		return g.lifecycleTx()
+	}
+	if g.Profile == "genesis" {
+		// a mix that populates every store: lifecycle, staking/super nodes (cursor), faults, dids
+		switch c := g.R.Intn(100); {
+		case c < 50:
+			return g.lifecycleTx()
+		case c < 65:
+			return g.stakingTx()
+		case c < 80:
+			return g.faultTx()
+		case c < 90:
+			op := g.didTx()
+			if op.Sid != 0 {
+				op.SidTs = g.W.SidTimestamp(op.Sid)
+			}
+			return op
+		}
 	}
 	if g.Profile == "auth" && g.R.Chance(55) {
 		return g.authTx()
